@@ -284,6 +284,8 @@ func build(rs []rec) []byte {
 			switch {
 			case r.M:
 				pl = build(r.Sub)
+			case r.P.ID == -2: // the specification's padding of r.P.Len bytes
+				pl = bytes.Repeat([]byte{otherValue}, r.P.Len)
 			case r.P.ID == -1:
 				pl = make([]byte, len(r.P.B))
 				for i, x := range r.P.B {
@@ -630,20 +632,29 @@ func replay(path string, tier string) {
 			accepted := v.ctor && v.valid
 			// prediction: constructor succeeds iff the bytes decode and pass the size check; for unchanged content the
 			// validity checks give what they give for the canonical instance (valid)
-			if v.ctor != pred || (same && accepted != pred) {
+			enlarges := accepted && same && !pred // reported below as a violation with its own signature, not as drift
+			if !enlarges && (v.ctor != pred || (same && accepted != pred)) {
 				drift(fmt.Sprintf("%s (%s, %s): specification says accepted=%v, real interceptor: constructor ok=%v valid=%v err=%q (len %d, Size() %d)",
 					in.Kind, cls, dn, pred, v.ctor, v.valid, v.err, len(buff), mu.ObjSize),
 					M{"mutant": json.RawMessage(raw), "bytes": vtrace.Hex(buff)})
 			}
 			if accepted && same && !bytes.Equal(buff, in.Canon) {
 				if !bytes.Equal(v.hash, canonHash[key]) {
-					sig := "C18/" + in.Kind + "/" + cls + "/" + dn
+					// a second encoding that the specification's transcription of the decoder / of the size rule does
+					// NOT accept enlarges the malleable set: it gets its own signature (never a listed finding)
+					sc := cls
+					if !mu.Ok {
+						sc += "+undecodable-by-specification"
+					} else if !pred {
+						sc += "+beyond-tolerance"
+					}
+					sig := "C18/" + in.Kind + "/" + sc + "/" + dn
 					malleable.Add(sig)
 					nviol[sig]++
 					if nviol[sig] == 1 {
 						vtrace.Violation("C18", sig,
 							fmt.Sprintf("%s: a second byte string (%s; %d bytes, canonical %d) is accepted by the interceptor with size check %s, decodes to the same content and has a different hash (%s vs %s)",
-								in.Kind, cls, len(buff), len(in.Canon), dn, vtrace.Hex(v.hash)[:16], vtrace.Hex(canonHash[key])[:16]),
+								in.Kind, sc, len(buff), len(in.Canon), dn, vtrace.Hex(v.hash)[:16], vtrace.Hex(canonHash[key])[:16]),
 							M{"instance": in.Name, "canonical": vtrace.Hex(in.Canon), "second": vtrace.Hex(buff), "classes": mu.Classes,
 								"sizecheck": dn})
 					}
